@@ -165,6 +165,7 @@ class Site:
         self.den = None  # joined AV of the denominator over all contexts
         self.contexts = 0
         self.guarded_where = False
+        self.symbolic_exp = False  # a power whose exponent is not a constant (may or may not be negative)
 
 
 class Interp:
@@ -182,6 +183,7 @@ class Interp:
         self.memo = {}
         self.stack = []
         self.unknown_calls = {}
+        self.exp_sign = P    # abstract sign of np.exp(..): P mathematically; Z when underflow to 0.0 matters
         self.sinks = {}      # id(node) -> dict(func, node, what, taint) outputs: returns / stores into parameters
         self.cleansed = {}   # id(func) -> {root: override statement} roots some masked override removed
 
@@ -215,7 +217,7 @@ class Interp:
         self.memo[k] = ret
         return ret
 
-    def record(self, fn, node, kind, den_node, den_val, guarded=False):
+    def record(self, fn, node, kind, den_node, den_val, guarded=False, symbolic=False):
         k = id(node)
         s = self.sites.get(k)
         if s is None:
@@ -227,6 +229,7 @@ class Interp:
             s.den = AV(join_sign(s.den.sign, v.sign), s.den.dep or v.dep, s.den.cl and v.cl)
         s.contexts += 1
         s.guarded_where = s.guarded_where or guarded
+        s.symbolic_exp = s.symbolic_exp or symbolic
 
     def sink(self, fn, node, what, val):
         t = frozenset()
@@ -660,7 +663,7 @@ class Frame:
                 return AV(U, dep, cl)
             # exponent not a constant: it may be negative unless proven >= 0
             if b.sign not in (P, Z):
-                self.I.record(self.fn, node, "pow", ln, a)
+                self.I.record(self.fn, node, "pow", ln, a, symbolic=True)
             if a.sign == P:
                 return AV(P, dep, cl)
             if a.sign == Z and b.sign in (P,):
@@ -768,7 +771,7 @@ class Frame:
         if cn in ("np.sqrt", "np.cbrt") and args:
             return AV(fargs[0].sign if fargs[0].sign in (P, Z) else U, dep, fargs[0].cl)
         if cn in ("np.exp", "np.cosh") and args:
-            return AV(P, dep, fargs[0].cl)
+            return AV(self.I.exp_sign if cn == "np.exp" else P, dep, fargs[0].cl)
         if cn in ("np.square",) and args:
             return AV(P if fargs[0].sign == P else Z, dep, fargs[0].cl)
         if cn in ("np.ones", "np.ones_like"):
@@ -783,7 +786,7 @@ class Frame:
             fake = ast.BinOp(left=e.args[0], op=ast.Pow(), right=e.args[1])
             ev = self.I.fold(e.args[1], self.fn)
             if (ev is None and fargs[1].sign not in (P, Z)) or (ev is not None and ev < 0):
-                self.I.record(self.fn, e, "pow", e.args[0], fargs[0], guarded="where" in kws)
+                self.I.record(self.fn, e, "pow", e.args[0], fargs[0], guarded="where" in kws, symbolic=ev is None)
             return AV(P if fargs[0].sign == P else U, dep, fargs[0].cl)
         if cn in PRESERVE_CALLS and args:
             return fargs[0]
